@@ -50,22 +50,21 @@ def _nested(outer, name, closure=None):
     timeout=200,
     kernel=K[:2],
     shims=(),
-    symbolic="integer n (|n| <= 10^6) read as an int cell and as an integral float cell; boolean cell",
-    bounds="|n| <= 10^6; float modelled as real",
+    symbolic="integer n (|n| <= 10^15) read as an int cell; boolean cell",
+    bounds="integral *floats* are not symbolic here: CrossHair models floats as reals and str(float) is C code (outside the claim, see OUTSIDE); three concrete integral floats are pushed through both converters as a sanity check only",
     weight=20,
 )
 def c12_numbers(n: int, b: bool) -> bool:
     """
-    pre: -1000000 <= n <= 1000000
+    pre: -1000000000000000 <= n <= 1000000000000000
     post: _ == True
     """
     want = str(n)
     if B.xlsx_value_to_str(n) != want:
         return False
-    if B.xlsx_value_to_str(float(n)) != want:
-        return False
-    if B.xls_value_to_unicode(float(n), XL_CELL_NUMBER, 0) != want:
-        return False
+    for f, w in ((32.0, "32"), (-7.0, "-7"), (1e16, "10000000000000000")):
+        if B.xlsx_value_to_str(f) != w or B.xls_value_to_unicode(f, XL_CELL_NUMBER, 0) != w:
+            return False
     wb = "TRUE" if b else "FALSE"
     return B.xlsx_value_to_str(b) == wb and B.xls_value_to_unicode(1 if b else 0, XL_CELL_BOOLEAN, 0) == wb
 
@@ -308,17 +307,53 @@ specialise(
 import pathlib as _pl  # noqa: E402
 
 _MD = "| survey |\n| | type | name | label |\n| | text | q1 | L |\n"
-_FS = {}
+_FS = []  # list of (path, bytes): linear lookup, no hashing of symbolic paths
 
 
-class _FakePath(_pl.PurePosixPath):
-    """environment model: a path object whose file content comes from an in-memory table"""
+class _FakePath:
+    """environment model: a path object whose file content comes from an in-memory table;
+    name/stem/suffix follow pathlib's documented rules for POSIX paths"""
+
+    def __init__(self, p):
+        self.p = p if isinstance(p, str) else str(p)
+
+    def __str__(self):
+        return self.p
+
+    def __fspath__(self):
+        return self.p
 
     def is_file(self):
-        return str(self) in _FS
+        for k, _v in _FS:
+            if k == self.p:
+                return True
+        return False
 
     def read_bytes(self):
-        return _FS[str(self)]
+        for k, v in _FS:
+            if k == self.p:
+                return v
+        raise FileNotFoundError(self.p)
+
+    @property
+    def name(self):
+        return self.p[self.p.rfind("/") + 1 :]
+
+    @property
+    def suffix(self):
+        n = self.name
+        i = n.rfind(".")
+        if 0 < i < len(n) - 1:
+            return n[i:]
+        return ""
+
+    @property
+    def stem(self):
+        n = self.name
+        i = n.rfind(".")
+        if 0 < i < len(n) - 1:
+            return n[:i]
+        return n
 
 
 SUFFIXES = [".md", ".MD", ".txt", "", ".Md", ".markdown"]
@@ -335,7 +370,7 @@ def c12_delivery(kind: int, sfx: int, s0: int, s1: int) -> bool:
     stem = S(s0, s1)
     path = "/forms/" + stem + SUFFIXES[sfx]
     _FS.clear()
-    _FS[path] = _MD.encode("utf-8")
+    _FS.append((path, _MD.encode("utf-8")))
     real = B.Path
     B.Path = _FakePath
     try:
